@@ -102,8 +102,9 @@ where
     fn recv_retire_cid_frame(&mut self, frame: RetireConnectionIdFrame) -> Result<(), Error> {
         let seq = frame.sequence();
         if seq >= self.cid_deque.largest() {
+            // RFC 9000 §19.16: a sequence number greater than any previously sent is a PROTOCOL_VIOLATION
             return Err(QuicError::new(
-                ErrorKind::ConnectionIdLimit,
+                ErrorKind::ProtocolViolation,
                 frame.frame_type().into(),
                 format!(
                     "Sequence({seq}) in RetireConnectionIdFrame exceeds the largest one({}) issued by us",
